@@ -149,6 +149,21 @@ func (db *DB) reconstructSSTables() error {
 				return err
 			}
 
+			// a process that stopped while flushing a memstore leaves a half written table behind. The WAL is only removed
+			// after the table was written completely, so the table will be recreated from it by the replay below.
+			incomplete, err := isIncompleteSSTable(p)
+			if err != nil {
+				return err
+			}
+			if incomplete {
+				log.Printf("found incomplete sstable to be deleted in %v", p)
+				err = os.RemoveAll(p)
+				if err != nil {
+					return err
+				}
+				continue
+			}
+
 			reader, err := sstables.NewSSTableReader(
 				sstables.ReadBasePath(p),
 				sstables.ReadWithKeyComparator(db.cmp),
@@ -167,6 +182,33 @@ func (db *DB) reconstructSSTables() error {
 	}
 
 	return nil
+}
+
+// isIncompleteSSTable tells whether the writer of the given table directory never got to finish it: the index and data
+// files are created (with their headers) first, the metadata file is created empty before the first record and written
+// last. Tables of the legacy format have no metadata file at all.
+func isIncompleteSSTable(tablePath string) (bool, error) {
+	for _, name := range []string{sstables.IndexFileName, sstables.DataFileName} {
+		info, err := os.Stat(filepath.Join(tablePath, name))
+		if os.IsNotExist(err) {
+			return true, nil
+		}
+		if err != nil {
+			return false, err
+		}
+		if info.Size() < recordio.FileHeaderSizeBytes {
+			return true, nil
+		}
+	}
+
+	info, err := os.Stat(filepath.Join(tablePath, sstables.MetaFileName))
+	if os.IsNotExist(err) {
+		return false, nil
+	}
+	if err != nil {
+		return false, err
+	}
+	return info.Size() == 0, nil
 }
 
 func (db *DB) replayAndSetupWriteAheadLog() error {
